@@ -679,7 +679,7 @@ def run_thorough(ctx: Context) -> None:
                     ctx.loc(f, n),
                     cfg.render_path(cfg.find_path(e[1], cfg.exit.id) or []),
                 )
-    ck.require_min("C04.S1", "functions testing for the error TLV", hits, 5)
+    ck.require_min("C04.S1", "functions testing for the error TLV", hits, 3)
 
 MANIFEST = {
     "technique": "CFG must-pass-through (gates as edges) + constant propagation of every one-byte error code "
